@@ -17,12 +17,13 @@ func init() {
 			ID: "C08", Title: "Adj-RIB-Out equals the export view of the Loc-RIB", Level: "other",
 			Technique:   "pairing analysis (R-PAIR): the set of export transformers on the def-use chain from each API entry to the key of every Adj-RIB-Out table operation, compared between add side and remove side; must-pass-through gates before every store; provenance of the withdrawal handed to the update sender",
 			DesignRef:   "DESIGN.md §3 R-PAIR, §4 C08",
-			Decided:     "(1) for every operation on the Adj-RIB-Out's routing table (AddPath/ReplacePath on the add side; RemovePath and the preference comparison that finds the stored path on the remove side) the key path is derived from the API parameter through the same export transformers — redistribution (CheckRedistribute), the session's propagation/rewrite rules (checkPropagateUpdate → iBGP/eBGP) and the export policy (Chain.Process), each once: a remove-side key that lacks a rewrite the add side applied can never equal the stored path; (2) every store into the table is preceded on every path by the propagation rules and the policy, whose negative verdict leaves the function without storing; (3) with add-path the stored path carries the identifier the id manager returned, best-only replaces and withdraws the replaced paths; (4) the Loc-RIB side of the view (which paths a session is shown) is C04's clauses, included here because the Loc-RIB is this property's other anchor.",
+			Decided:     "(w) every removal from the Adj-RIB-Out table is followed, on every feasible path, by a withdrawal handed to the clients (error branches and exits ruled out by a flag set after the removal excepted); (1) for every operation on the Adj-RIB-Out's routing table (AddPath/ReplacePath on the add side; RemovePath and the preference comparison that finds the stored path on the remove side) the key path is derived from the API parameter through the same export transformers — redistribution (CheckRedistribute), the session's propagation/rewrite rules (checkPropagateUpdate → iBGP/eBGP) and the export policy (Chain.Process), each once: a remove-side key that lacks a rewrite the add side applied can never equal the stored path; (2) every store into the table is preceded on every path by the propagation rules and the policy, whose negative verdict leaves the function without storing; (3) with add-path the stored path carries the identifier the id manager returned, best-only replaces and withdraws the replaced paths; (4) the Loc-RIB side of the view (which paths a session is shown) is C04's clauses, included here because the Loc-RIB is this property's other anchor.",
 			NotDecided:  "equality of the Adj-RIB-Out with the export view over whole Loc-RIB histories; the attribute values the rewrites produce (C09).",
 			TrustedBase: stdTrusted,
 		},
 		Run: runC08,
 		Controls: []Control{
+			{Name: "not-found-decided-by-pointer-identity", File: "routingtable/adjRIBOut/adj_rib_out.go", Old: "\t\tif !found {\n\t\t\treturn false\n\t\t}\n", New: "\t\tif !found || sentPath == p {\n\t\t\treturn false\n\t\t}\n", Expect: "table-removal-is-withdrawn"},
 			{Name: "remove-uses-pre-policy-key", File: "routingtable/adjRIBOut/adj_rib_out.go", Old: "\tp, reject := a.exportFilterChain.Process(pfx, p)\n\tif reject {\n\t\treturn false\n\t}\n\n\treturn a.removeExportedPath(pfx, p)", New: "\t_, reject := a.exportFilterChain.Process(pfx, p)\n\tif reject {\n\t\treturn false\n\t}\n\n\treturn a.removeExportedPath(pfx, p)", Expect: "export-transformers-paired"},
 			{Name: "add-skips-propagation-rules", File: "routingtable/adjRIBOut/adj_rib_out.go", Old: "\tp, propagate := a.checkPropagateUpdate(pfx, p)\n\tif !propagate {\n\t\treturn nil\n\t}\n\n\tp, reject := a.exportFilterChain.Process(pfx, p)\n\tif reject {\n\t\treturn nil\n\t}\n\n\tp.BGPPath = p.BGPPath.Dedup()", New: "\tp, reject := a.exportFilterChain.Process(pfx, p)\n\tif reject {\n\t\treturn nil\n\t}\n\n\tp.BGPPath = p.BGPPath.Dedup()", Expect: "export-transformers-paired"},
 			{Name: "rejected-path-stored-anyway", File: "routingtable/adjRIBOut/adj_rib_out.go", Old: "\tp, reject := a.exportFilterChain.Process(pfx, p)\n\tif reject {\n\t\treturn nil\n\t}\n\n\tp.BGPPath = p.BGPPath.Dedup()", New: "\tp, reject := a.exportFilterChain.Process(pfx, p)\n\tif reject && a.sessionAttrs.AddPathTX {\n\t\treturn nil\n\t}\n\n\tp.BGPPath = p.BGPPath.Dedup()", Expect: "store-gated-by-verdicts"},
@@ -226,6 +227,7 @@ func exportTransformerPairing(c *core.Ctx) {
 }
 
 func runC08(c *core.Ctx) {
+	tableRemovalIsWithdrawn(c, "table-removal-is-withdrawn")
 	p := c.P
 	exportTransformerPairing(c)
 
